@@ -1,7 +1,8 @@
 (* Extraction for C08: non-overlap / containment generator models and the checkers (independent of the proofs). *)
 Require Extraction.
 Require Import ExtrOcamlBasic.
-From Adapt Require Import Num.Qaux Cola.CompoundCsModel Cola.NonOverlapModel Cola.ContainmentModel Cola.VarLayoutModel.
+From Adapt Require Import Num.Qaux Cola.CompoundCsModel Cola.NonOverlapModel Cola.ContainmentModel Cola.VarLayoutModel Cola.NonOverlapExemptModel.
 Extraction "c08_model.ml" run_ops gen_nonoverlap exempt_pairs gen_containment Sepb sep2b boxes_sepb
   setup_layout setup_layout_flat stored_layout containments setup_user_system gen_system tag_at
-  gen_fixed_rect fixed_rect_constraints inside_rectb members_inside_rectb.
+  gen_fixed_rect fixed_rect_constraints inside_rectb members_inside_rectb
+  add_exempt_groups add_exempt_groups_noclear shape_pair_is_exempt set_avoid set_avoid_noclear opts0 after_calls obliged_pairs.
